@@ -137,7 +137,7 @@ class ResponseSecondHeader(BytesInterface):
         @param failure_reason: specific per type of request message (PDU)
         @param refresh_time: in 30 minute increments (3 = 90 minutes refresh interval, 0 = refresh not expected)
         """
-        assert failure_reason or refresh_time
+        assert failure_reason is not None or refresh_time is not None
         self.failure_reason: Optional[FailureReason] = (
             failure_reason
             if failure_reason is None or isinstance(failure_reason, FailureReason)
